@@ -21,7 +21,7 @@ structure Quirks where
 
 def Quirks.current : Quirks :=
   { endTagSpaceTwice := false, verbatimCommentLstrip := false, splitIgnoresSep := false,
-    attrIndexOffByOne := false, sharedFallbackVar := false, textModeIdentify := true }
+    attrIndexOffByOne := false, sharedFallbackVar := false, textModeIdentify := false }
 
 def Quirks.ideal : Quirks :=
   { endTagSpaceTwice := false, verbatimCommentLstrip := false, splitIgnoresSep := false,
